@@ -494,7 +494,7 @@ theorem inv_tail_moved (t s1 : St) (hi : Inv t) (a stop hd : Nat) (d : DelSpec t
 theorem setTail_eq (s : St) (to hd : Nat) (hl : s.lookup to = true) (eh : s.head = some hd) (hle : to ≤ hd) :
     s.setTail to = ({ s with tail := some to, tailPtr := some to }, true) := by
   have : ¬ (to > hd) := by omega
-  simp [St.setTail, hl, eh, this]
+  simp [St.setTail, St.tailOver, hl, eh, this]
 
 theorem setHead_eq (s : St) (to : Nat) (hl : s.lookup to = true) :
     s.setHead to = ({ s with head := some to, headPtr := some to, hs := to }, true) := by
@@ -624,5 +624,398 @@ theorem deleteSynced_spec (t : St) (hi : Inv t) (a b : Nat) :
           refine ⟨?_, by simp, by simp, by simp; omega, ?_⟩
           · intro h; exact d.pres h
           · exact inv_same t _ hi' fh d
+
+end GoHeader.Store
+
+namespace GoHeader.Store
+
+/-! ### pointers on disk never outlive the ends; restart -/
+
+/-- a persisted pointer exists only while the corresponding end is set -/
+def NoPtr (s : St) : Prop := (s.head = none → s.headPtr = none) ∧ (s.tail = none → s.tailPtr = none)
+
+def Good (s : St) : Prop := Inv s ∧ NoPtr s
+
+theorem noPtr_ensureInit (s : St) (x : Nat) (h : NoPtr s) : NoPtr (s.ensureInit x) := by
+  unfold St.ensureInit NoPtr at *
+  cases hh : s.head <;> cases ht : s.tail <;> simp_all
+
+theorem noPtr_advance (s : St) (h : NoPtr s) : NoPtr s.advance := by
+  unfold St.advance NoPtr at *
+  cases hh : s.head <;> simp_all
+
+theorem noPtr_recede (s : St) (h : NoPtr s) : NoPtr s.recede := by
+  unfold St.recede NoPtr at *
+  cases ht : s.tail <;> simp_all
+
+theorem noPtr_commit (s : St) (h : NoPtr s) : NoPtr s.commit := by
+  unfold St.commit NoPtr at *
+  cases hh : s.head <;> cases ht : s.tail <;> simp_all
+
+theorem noPtr_flushBatch (s : St) (hs : List Nat) (h : NoPtr s) : NoPtr (s.flushBatch hs) := by
+  unfold St.flushBatch
+  cases hs with
+  | nil => exact h
+  | cons x xs =>
+    simp only
+    have h1 : NoPtr ({ s with pending := HSet.union s.pending (x :: xs) } : St) := h
+    have h5 := noPtr_recede _ (noPtr_advance _ (noPtr_ensureInit _ x h1))
+    split
+    · exact noPtr_commit _ h5
+    · exact h5
+
+theorem good_flushBatch (s : St) (hs : List Nat) (h : Good s) : Good (s.flushBatch hs) :=
+  ⟨inv_flushBatch s hs h.1, noPtr_flushBatch s hs h.2⟩
+
+theorem good_foldl_flush (q : List (List Nat)) (s : St) (h : Good s) : Good (q.foldl St.flushBatch s) := by
+  induction q generalizing s with
+  | nil => exact h
+  | cons b bs ih => exact ih _ (good_flushBatch s b h)
+
+theorem good_sync (s : St) (h : Good s) : Good s.sync := by
+  unfold St.sync
+  exact good_foldl_flush _ _ h
+
+theorem noPtr_setTail (s : St) (to : Nat) (h : NoPtr s) : NoPtr (s.setTail to).1 := by
+  unfold St.setTail
+  by_cases hl : s.lookup to = true
+  · simp only [hl, Bool.not_true, Bool.false_eq_true, if_false]
+    by_cases ho : s.tailOver to = true
+    · rw [if_pos ho]; apply noPtr_advance; unfold NoPtr; simp
+    · rw [if_neg ho]; unfold NoPtr at *; simp; exact h.1
+  · simp [hl]; exact h
+
+theorem noPtr_setHead (s : St) (to : Nat) (h : NoPtr s) : NoPtr (s.setHead to).1 := by
+  unfold St.setHead
+  split
+  · exact h
+  · unfold NoPtr at *; simp; exact h.2
+
+theorem noPtr_of_sameEnds (s s' : St) (e : SameEnds s s') (h : NoPtr s) : NoPtr s' := by
+  obtain ⟨e1, e2, _, e4, e5, _⟩ := e
+  unfold NoPtr; rw [e1, e2, e4, e5]; exact h
+
+theorem noPtr_deleteSynced (t : St) (hc : Coh t) (a b : Nat) (h : NoPtr t) : NoPtr (t.deleteSynced a b).1 := by
+  unfold St.deleteSynced
+  cases hk : t.delKind a b with
+  | none => exact h
+  | some k =>
+    obtain ⟨stop, _, _, _, _, d⟩ := delLoop_spec t hc a (b - a)
+    have h1 := noPtr_of_sameEnds _ _ d.ends h
+    simp only
+    generalize t.delLoop a (b - a) = r at *
+    obtain ⟨r1, r2⟩ := r
+    cases k <;> cases r2 <;> simp only [St.finishDelete]
+    · unfold NoPtr; simp
+    · exact noPtr_setTail _ _ h1
+    · exact noPtr_setTail _ _ h1
+    · exact noPtr_setTail _ _ h1
+    · split
+      · exact noPtr_setHead _ _ h1
+      · exact h1
+    · split
+      · exact noPtr_setHead _ _ h1
+      · exact h1
+
+theorem good_deleteRange (s : St) (a b : Nat) (h : Good s) : Good (s.deleteRange a b).1 := by
+  have hs : Good s.syncedForDelete := good_sync s h
+  unfold St.deleteRange
+  refine ⟨?_, noPtr_deleteSynced _ hs.1.2.1 a b hs.2⟩
+  rcases deleteSynced_spec _ hs.1 a b with ⟨_, e⟩ | ⟨k, stop, _, _, _, _, _, _, _, hi⟩
+  · rw [e]; exact hs.1
+  · exact hi
+
+/-- the stop signal: advance/recede, then commit -/
+theorem good_flushStop (s : St) (h : Good s) : Good s.flushStop :=
+  ⟨inv_commit _ (inv_advance_recede_of_inv s h.1), noPtr_commit _ (noPtr_recede _ (noPtr_advance _ h.2))⟩
+
+/-- after the final flush the persisted pointers ARE the ends and nothing is pending -/
+theorem flushStop_ptrs (s : St) (h : NoPtr s) :
+    s.flushStop.headPtr = s.flushStop.head ∧ s.flushStop.tailPtr = s.flushStop.tail ∧ s.flushStop.pending = [] := by
+  have h' := noPtr_recede _ (noPtr_advance _ h)
+  unfold St.flushStop St.commit
+  generalize s.advance.recede = u at *
+  unfold NoPtr at h'
+  cases hh : u.head <;> cases ht : u.tail <;> simp_all
+
+/-- C06 (clean restart), state level: Stop + Start on the same datastore reproduces the ends,
+    the height and every stored header; nothing is pending any more. -/
+theorem restart_spec (s : St) (h : Good s) :
+    s.restart.head = s.sync.flushStop.head ∧ s.restart.tail = s.sync.flushStop.tail ∧
+    s.restart.hdr = s.sync.flushStop.hdr ∧ s.restart.idx = s.sync.flushStop.idx ∧
+    s.restart.pending = [] ∧ (∀ k, s.restart.present k ↔ s.sync.flushStop.present k) ∧
+    (∀ hd, s.restart.head = some hd → s.restart.hs = hd) := by
+  have hg : Good s.sync.flushStop := good_flushStop _ (good_sync s h)
+  obtain ⟨p1, p2, p3⟩ := flushStop_ptrs s.sync (good_sync s h).2
+  unfold St.restart
+  generalize s.sync.flushStop = u at *
+  obtain ⟨⟨hnone, hc, hrun⟩, _⟩ := hg
+  have hhd : ∀ hd, u.head = some hd → hd ∈ u.hdr := by
+    intro hd e
+    cases ht : u.tail with
+    | none => exact absurd (hnone.mpr ht) (by simp [e])
+    | some tl =>
+      obtain ⟨a, b, _, _⟩ := hrun hd tl e ht
+      have := b hd a (Nat.le_refl _)
+      unfold St.present at this; rw [p3] at this; simp at this; exact this.2
+  have htl : ∀ tl, u.tail = some tl → tl ∈ u.hdr := by
+    intro tl e
+    cases hh : u.head with
+    | none => exact absurd (hnone.mp hh) (by simp [e])
+    | some hd =>
+      obtain ⟨a, b, _, _⟩ := hrun hd tl hh e
+      have := b tl (Nat.le_refl _) a
+      unfold St.present at this; rw [p3] at this; simp at this; exact this.2
+  have e1 : resolvePtr u.headPtr u.hdr = u.head := by
+    rw [p1]; unfold resolvePtr; cases hh : u.head with
+    | none => rfl
+    | some hd => simp [hhd hd hh]
+  have e2 : resolvePtr u.tailPtr u.hdr = u.tail := by
+    rw [p2]; unfold resolvePtr; cases ht : u.tail with
+    | none => rfl
+    | some tl => simp [htl tl ht]
+  unfold St.reopen
+  rw [e1, e2]
+  refine ⟨rfl, rfl, rfl, rfl, rfl, ?_, ?_⟩
+  · intro k; simp [St.present, p3]
+  · intro hd e; simp at e; simp [e]
+
+theorem good_restart (s : St) (h : Good s) : Good s.restart := by
+  obtain ⟨r1, r2, r3, r4, r5, r6, r7⟩ := restart_spec s h
+  have hg : Good s.sync.flushStop := good_flushStop _ (good_sync s h)
+  obtain ⟨p1, p2, p3⟩ := flushStop_ptrs s.sync (good_sync s h).2
+  obtain ⟨⟨hnone, hc, hrun⟩, hn⟩ := hg
+  refine ⟨⟨by rw [r1, r2]; exact hnone, by intro k; rw [r3, r4]; exact hc k, ?_⟩, ?_⟩
+  · intro hd tl eh et
+    have eh' := eh; rw [r1] at eh'; rw [r2] at et
+    obtain ⟨a, b, c, _⟩ := hrun hd tl eh' et
+    exact ⟨a, fun k x y => (r6 k).mpr (b k x y), fun hp => c ((r6 _).mp hp), r7 hd eh⟩
+  · unfold St.restart St.reopen NoPtr
+    simp only
+    constructor <;> intro e <;> exact e
+
+theorem good_init (batch : Nat) : Good (St.init batch) := by
+  unfold Good Inv NoPtr Coh St.init
+  simp
+
+theorem good_step (s : St) (op : Op) (h : Good s) : Good (s.step op) := by
+  cases op with
+  | append hs =>
+    show Good (if hs.isEmpty then s else { s with queue := s.queue ++ [hs] })
+    split
+    · exact h
+    · exact ⟨h.1, h.2⟩
+  | sync => exact good_sync s h
+  | delete a b => exact good_deleteRange s a b h
+  | restart => exact good_restart s h
+  | onDelete f => exact h
+
+theorem good_run (batch : Nat) (ops : List Op) : Good (St.run batch ops) := by
+  unfold St.run
+  have : ∀ (s : St), Good s → Good (ops.foldl St.step s) := by
+    induction ops with
+    | nil => intro s h; exact h
+    | cons o os ih => intro s h; exact ih _ (good_step s o h)
+  exact this _ (good_init batch)
+
+end GoHeader.Store
+
+namespace GoHeader.Store
+
+/-! ### what is stored: exact effect of every operation on `present` -/
+
+theorem present_ensureInit (s : St) (x k : Nat) : (s.ensureInit x).present k ↔ s.present k := by
+  unfold St.ensureInit St.present
+  cases hh : s.head <;> cases ht : s.tail <;> simp [ht]
+
+theorem coh_ensureInit (s : St) (x : Nat) (hc : Coh s) : Coh (s.ensureInit x) := by
+  unfold St.ensureInit Coh at *
+  cases hh : s.head <;> cases ht : s.tail <;> simpa [ht] using hc
+
+theorem coh_advance_recede (s : St) (hc : Coh s) : Coh s.advance.recede := by
+  unfold St.advance St.recede Coh at *
+  cases hh : s.head <;> cases ht : s.tail <;> simpa [ht] using hc
+
+theorem present_flushBatch (s : St) (hc : Coh s) (b : List Nat) (k : Nat) :
+    (s.flushBatch b).present k ↔ s.present k ∨ k ∈ b := by
+  unfold St.flushBatch
+  cases b with
+  | nil => simp
+  | cons x xs =>
+    simp only
+    have hc1 : Coh ({ s with pending := HSet.union s.pending (x :: xs) } : St) := hc
+    have hc5 := coh_advance_recede _ (coh_ensureInit _ x hc1)
+    have hp5 : ∀ k, ((({ s with pending := HSet.union s.pending (x :: xs) } : St).ensureInit x).advance.recede).present k
+        ↔ s.present k ∨ k ∈ x :: xs := by
+      intro k
+      rw [present_advance_recede, present_ensureInit]
+      simp only [St.present, mem_union]
+      constructor
+      · rintro ((h | h) | h)
+        · exact Or.inl (Or.inl h)
+        · exact Or.inr h
+        · exact Or.inl (Or.inr h)
+      · rintro ((h | h) | h)
+        · exact Or.inl (Or.inl h)
+        · exact Or.inr h
+        · exact Or.inl (Or.inr h)
+    split
+    · rw [present_commit _ hc5]; exact hp5 k
+    · exact hp5 k
+
+theorem coh_flushBatch (s : St) (hc : Coh s) (b : List Nat) : Coh (s.flushBatch b) := by
+  unfold St.flushBatch
+  cases b with
+  | nil => exact hc
+  | cons x xs =>
+    simp only
+    have hc1 : Coh ({ s with pending := HSet.union s.pending (x :: xs) } : St) := hc
+    have hc5 := coh_advance_recede _ (coh_ensureInit _ x hc1)
+    split
+    · exact coh_commit _ hc5
+    · exact hc5
+
+theorem present_foldl_flush (q : List (List Nat)) (s : St) (hc : Coh s) (k : Nat) :
+    (q.foldl St.flushBatch s).present k ↔ s.present k ∨ ∃ b ∈ q, k ∈ b := by
+  induction q generalizing s with
+  | nil => simp
+  | cons b bs ih =>
+    simp only [List.foldl_cons]
+    rw [ih _ (coh_flushBatch s hc b), present_flushBatch s hc]
+    constructor
+    · rintro ((h | h) | ⟨b', hb, h⟩)
+      · exact Or.inl h
+      · exact Or.inr ⟨b, by simp, h⟩
+      · exact Or.inr ⟨b', by simp [hb], h⟩
+    · rintro (h | ⟨b', hb, h⟩)
+      · exact Or.inl (Or.inl h)
+      · simp at hb; rcases hb with rfl | hb
+        · exact Or.inl (Or.inr h)
+        · exact Or.inr ⟨b', hb, h⟩
+
+/-- stored, or waiting in the write queue -/
+def St.mentions (s : St) (k : Nat) : Prop := s.present k ∨ ∃ b ∈ s.queue, k ∈ b
+
+theorem present_sync (s : St) (hc : Coh s) (k : Nat) : s.sync.present k ↔ s.mentions k := by
+  have := present_foldl_flush s.queue { s with queue := [] } hc k
+  unfold St.sync St.mentions
+  rw [this]
+  simp [St.present]
+
+theorem queue_ensureInit (s : St) (x : Nat) : (s.ensureInit x).queue = s.queue := by
+  unfold St.ensureInit; cases hh : s.head <;> cases ht : s.tail <;> simp [ht]
+theorem queue_advance (s : St) : s.advance.queue = s.queue := by
+  unfold St.advance; cases hh : s.head <;> simp
+theorem queue_recede (s : St) : s.recede.queue = s.queue := by
+  unfold St.recede; cases ht : s.tail <;> simp
+theorem queue_commit (s : St) : s.commit.queue = s.queue := rfl
+
+theorem queue_flushBatch (s : St) (b : List Nat) : (s.flushBatch b).queue = s.queue := by
+  unfold St.flushBatch
+  cases b with
+  | nil => rfl
+  | cons x xs =>
+    simp only
+    split
+    · rw [queue_commit, queue_recede, queue_advance, queue_ensureInit]
+    · rw [queue_recede, queue_advance, queue_ensureInit]
+
+theorem queue_foldl_flush (q : List (List Nat)) (s : St) : (q.foldl St.flushBatch s).queue = s.queue := by
+  induction q generalizing s with
+  | nil => rfl
+  | cons b bs ih => simp only [List.foldl_cons]; rw [ih, queue_flushBatch]
+
+theorem queue_sync (s : St) : s.sync.queue = [] := by
+  unfold St.sync; rw [queue_foldl_flush]
+
+theorem mentions_flushStop (s : St) (hc : Coh s) (k : Nat) : s.flushStop.present k ↔ s.present k := by
+  unfold St.flushStop
+  rw [present_commit _ (coh_advance_recede s hc), present_advance_recede]
+
+/-- restart neither loses nor invents headers -/
+theorem present_restart (s : St) (h : Good s) (k : Nat) : s.restart.present k ↔ s.mentions k := by
+  rw [(restart_spec s h).2.2.2.2.2.1 k, mentions_flushStop _ (good_sync s h).1.2.1, present_sync _ h.1.2.1]
+
+theorem queue_restart (s : St) : s.restart.queue = [] := rfl
+
+theorem queue_setTail (s : St) (to : Nat) : (s.setTail to).1.queue = s.queue := by
+  unfold St.setTail
+  split
+  · rfl
+  · split
+    · rw [queue_advance]
+    · rfl
+
+theorem queue_setHead (s : St) (to : Nat) : (s.setHead to).1.queue = s.queue := by
+  unfold St.setHead; split <;> rfl
+
+theorem queue_deleteSynced (t : St) (hc : Coh t) (a b : Nat) : (t.deleteSynced a b).1.queue = t.queue := by
+  unfold St.deleteSynced
+  cases hk : t.delKind a b with
+  | none => rfl
+  | some kd =>
+    obtain ⟨stop, _, _, _, _, d⟩ := delLoop_spec t hc a (b - a)
+    have e7 := d.ends.2.2.2.2.2.2
+    simp only
+    generalize t.delLoop a (b - a) = r at *
+    obtain ⟨r1, r2⟩ := r
+    simp only at e7
+    cases kd <;> cases r2 <;> simp only [St.finishDelete]
+    · exact e7
+    · rw [queue_setTail]; exact e7
+    · rw [queue_setTail]; exact e7
+    · rw [queue_setTail]; exact e7
+    · split
+      · rw [queue_setHead]; exact e7
+      · exact e7
+    · split
+      · rw [queue_setHead]; exact e7
+      · exact e7
+
+/-- exact effect of one operation on what the store mentions -/
+theorem mentions_step (s : St) (h : Good s) (op : Op) (k : Nat) :
+    (s.step op).mentions k →
+      s.mentions k ∨ (∃ hs, op = .append hs ∧ k ∈ hs) := by
+  cases op with
+  | append hs =>
+    simp only [St.step]
+    split
+    · exact fun h => Or.inl h
+    · intro hm
+      unfold St.mentions at hm ⊢
+      rcases hm with hm | ⟨b, hb, hk⟩
+      · exact Or.inl (Or.inl hm)
+      · simp only [List.mem_append, List.mem_singleton] at hb
+        rcases hb with hb | hb
+        · exact Or.inl (Or.inr ⟨b, hb, hk⟩)
+        · subst hb; exact Or.inr ⟨_, rfl, hk⟩
+  | sync =>
+    intro hm; left
+    simp only [St.step] at hm
+    unfold St.mentions at hm
+    rw [queue_sync] at hm; simp at hm
+    exact (present_sync s h.1.2.1 k).mp hm
+  | delete a b =>
+    intro hm; left
+    have hs : Good s.syncedForDelete := good_sync s h
+    have hq0 : s.syncedForDelete.queue = [] := by unfold St.syncedForDelete; exact queue_sync s
+    have hq : (s.deleteRange a b).1.queue = [] := by
+      unfold St.deleteRange; rw [queue_deleteSynced _ hs.1.2.1]; exact hq0
+    simp only [St.step] at hm
+    unfold St.mentions at hm
+    rw [hq] at hm; simp at hm
+    have hp : s.syncedForDelete.present k := by
+      unfold St.deleteRange at hm
+      rcases deleteSynced_spec _ hs.1 a b with ⟨_, e⟩ | ⟨kd, stop, _, _, _, hpres, _⟩
+      · rw [e] at hm; exact hm
+      · exact ((hpres k).mp hm).1
+    exact (present_sync s h.1.2.1 k).mp hp
+  | restart =>
+    intro hm; left
+    simp only [St.step] at hm
+    unfold St.mentions at hm
+    rw [queue_restart] at hm; simp at hm
+    exact (present_restart s h k).mp hm
+  | onDelete f => exact fun h => Or.inl h
 
 end GoHeader.Store
